@@ -29,6 +29,26 @@ CHECKS = {
          "extracted-model/implementation differential testing + round-trip oracle (Coq proof of the model's round trip pending)"),
 }
 
+OTHER_NOTE = "No Coq theorem about this property is closed yet in this commit: assurance is bounded by the generated cases."
+def other(text, tech):
+    return ("other", text + " The extracted Gallina model (function-by-function mirror of the Python) is run against the implementation on every generated case and an independent oracle judges the implementation directly.", OTHER_NOTE, tech)
+
+CHECKS.update({
+ "C02": other("Chunked deliveries of well-formed message streams are compared with the single delivery (messages, order, final state), with the caller overwriting its input buffer after each call.", "extracted-model/implementation differential testing over chunkings + single-delivery oracle (chunk-independence theorem pending)"),
+ "C03": other("The implementation's bytes are decoded by an independent strict RFC 4511 decoder written from the ASN.1 module and compared with the abstract message; one known finding (UnbindRequest constructed bit, pinned by tests).", "independent RFC 4511 strict decoder + model/implementation encoder correspondence (spec-equivalence theorem pending)"),
+ "C04": other("An independent RFC 4511 encoder re-encodes each message with per-node random BER freedoms (long-form lengths, non-FF TRUE, explicit defaults, trailing unknown elements); the decoded value must equal that of the canonical encoding.", "BER-freedom mutator + model/implementation decoder correspondence (valid_enc theorem pending)"),
+ "C05": other("Arbitrary and single-node-corrupted byte streams in any chunking and state: only ProtocolError may escape, the session is CLOSED and refuses input afterwards, attached bytes are a notice of disconnection / unbind; one known finding (unbind constructed bit).", "malformed-stream differential testing + exception-class / fail-closed oracle (totality theorem pending)"),
+ "C06": other("Streams of complete outer TLVs with damaged interiors: an independent framer counts complete units after every call and compares with the messages returned.", "independent TLV framer oracle + model/implementation correspondence (framing theorem pending)"),
+ "C11": other("Joint histories of a real client and server over byte pipes with arbitrary partial deliveries; exactly-once in-order delivery, no spurious ProtocolError, agreement at quiescence probed on deep-copied clones.", "joint-simulation differential testing + delivery/agreement oracle (joint invariant pending)"),
+ "C13": other("Filter trees with hostile values are printed and re-parsed; the text is also parsed by an independent RFC 4515 reference parser.", "print/parse round-trip oracle + reference parser + model/implementation correspondence (round-trip theorem pending)"),
+ "C14": other("Sentences of the RFC 4515 grammar (all productions, both hex cases, raw UTF-8, options, OIDs, tolerated spaces) generated from trees; result compared with the generating tree, the reference parser and an independent RFC 4511 encoding of the SearchRequest.", "grammar-sentence generation + reference parser + model/implementation correspondence (grammar-completeness theorem pending)"),
+ "C15": other("Single-character edits of sentences, random text, unbalanced and very deep nesting: only FilterSyntaxError with in-range offset/length, accepted filters have valid attributes and re-parse from their own text; two known findings pinned by tests.", "mutation testing of the parser + totality/bounds/validity oracle + model/implementation correspondence (totality theorem pending)"),
+ "C16": other("Valid schema descriptions of the three kinds are printed and re-parsed; the text is also parsed by an independent RFC 4512 reference parser.", "print/parse round-trip oracle + reference parser + model/implementation correspondence (qdstring round-trip theorem pending)"),
+ "C17": other("Sentences of the three RFC 4512 grammars with all spacing / list-form / escape-case choices, plus mutated strings for the totality clause.", "grammar-sentence generation + reference parser + model/implementation correspondence"),
+ "C18": other("Adversarial input families for every parser and for receive are timed at doubling sizes (absolute and growth thresholds); the regular expressions are regenerated from the source on every run.", "CPU-time growth measurement on adversarial families (polynomial path-count certificate theorem pending)"),
+ "C19": other("Pairs of session histories run interleaved and alone must give identical transcripts; custom control / filter / credential registration is exercised with distinct type sets per session.", "interleaved-vs-isolated transcript comparison + registration oracle + two independent model instances"),
+})
+
 def main():
     m = {
         "version": 1,
